@@ -97,6 +97,21 @@ Proof.
   destruct (parse s) as [[[| |]|] [|]]; reflexivity.
 Qed.
 
+(* the observable state after a step of a history: len(tss), is_barrierless, and the energy of
+   reaction.ts (TNone: ts is None; TErr: evaluating ts raised) *)
+Inductive tsexp := TNone | TSome (e : option (Qc * string)) | TErr.
+Definition check_state (h : reaction) (n : nat) (b : option bool) (e : tsexp) : bool :=
+  Nat.eqb (List.length (tss h)) n &&
+  match b with Some b' => Bool.eqb (is_barrierless h) b' | None => true end &&
+  match lowest_ts (tss h), e with
+  | LOk None, TNone => true
+  | LOk (Some t), TSome None => is_none (sp_energy t)
+  | LOk (Some t), TSome (Some (x, u)) =>
+      match sp_energy t with Some (y, v) => Qceqb x y && String.eqb (uname v) u | None => false end
+  | LErr, TErr => true
+  | _, _ => false
+  end.
+
 (* reaction_types.classify called directly *)
 Definition cres_eqb (a b : cres) : bool :=
   match a, b with
